@@ -137,4 +137,12 @@ int asserts_digits(const char* text)
    assert(std::all_of(s.begin(), s.end(), ::isdigit));
    return atoi(s.c_str());
 }
+
+// R13.11 (second pattern): a section reader asserting a relation between numbers it has read from the file (the shape of F40)
+struct RowsCtl { double lhs(int) const; double rhs(int) const; double& rhs_w(int); };
+void MPSreadRangesControl(RowsCtl& rset, int idx, double val)
+{
+   assert(rset.lhs(idx) == rset.rhs(idx));
+   rset.rhs_w(idx) += val;
+}
 }
